@@ -82,10 +82,11 @@ Theorem C07_selection_unknown : forall (ord : oracle) (g : graph) r0 rr,
 Proof. exact select_unknown. Qed.
 Print Assumptions C07_selection_unknown.
 
-(* "(unless no-deps is given)": with no-deps exactly the processes whose Name is requested stay
-   enabled, their dependencies are dropped, everything else is disabled. *)
+(* "(unless no-deps is given)": with no-deps exactly the processes whose Name or replica name is
+   requested stay enabled, their dependencies are dropped, everything else is disabled.  (Model of
+   the code after fixes/F34-nodeps-replica-name.diff; the unrepaired code ignores replica names.) *)
 Theorem C07_selection_nodeps : forall (g : graph) r0 rr q, In q (select_nodeps g (r0 :: rr)) ->
-  (dis q = false <-> In (pname q) (r0 :: rr)) /\ (dis q = false -> deps q = []) /\
+  (dis q = false <-> In (pname q) (r0 :: rr) \/ In (key q) (r0 :: rr)) /\ (dis q = false -> deps q = []) /\
   exists p, In p g /\ key q = key p /\ pname q = pname p /\ fg q = fg p.
 Proof. exact select_nodeps_spec. Qed.
 Print Assumptions C07_selection_nodeps.
